@@ -138,6 +138,9 @@ func TestGatedStatFault(t *testing.T) {
 			t.Fatalf("C13 violated: healthy StatBlobs after the fault failed: %v", statErr)
 		}
 		nt := int(held.Load()) >= gate-1
+		if evid.R.WantSample(false) {
+			evid.R.Sample(false, map[string]any{"kind": "gated-stat-fault", "backend": typ, "batch": n, "failing_lookup": failIdx, "sibling_lookups_held": held.Load()})
+		}
 		if nt {
 			evid.R.Label("gated/dispatch-loop-parked-on-gate")
 			evid.R.NonTrivial(evid.Hash("gated", typ, n, failIdx))
